@@ -4,6 +4,12 @@ import "verif/checker/internal/core"
 
 func init() {
 	register(&Prop{
+		ID:    "C03",
+		Rules: []*Rule{rSpecialLeaf},
+		Explain: "interim: R-SPECIAL-LEAF only",
+		Trusted: []string{"go/ssa"},
+	})
+	register(&Prop{
 		ID:    "C14",
 		Rules: []*Rule{rProtocol, rWrapDual, rWalkMulti, rForward},
 		Explain: "Decides the structural side of drop-in compatibility: the library probes exactly the standard protocol methods (Is/As/Unwrap/Unwrap []error/Cause) with their exact signatures and precedence; every library wrapper implements both Cause() and Unwrap() over the same field so stdlib and pkg/errors traverse library chains; Is/As recurse into multi-cause branches in order; the root API forwards to the right implementation with parameters in order. " +
